@@ -14,6 +14,16 @@ import numpy as np
 from vf import space
 
 
+# every array handed to a constructor is recorded here (array, pristine copy) so that a check can verify that
+# building and applying an operator never modifies the arrays it was built from
+CREATED = []
+
+
+def _record(a):
+    CREATED.append((a, a.copy()))
+    return a
+
+
 def _rng(seed, spec, tag=""):
     h = hashlib.sha1((json.dumps(spec, sort_keys=True, default=str) + tag + str(seed)).encode()).digest()
     return np.random.default_rng(int.from_bytes(h[:8], "little"))
@@ -25,11 +35,11 @@ def carray(shape, seed, spec, tag="", dyadic=False, real=False):
         vals = np.array([0.5, -0.5, 1, -1, 2, -2, 0.5j, -1j, 2j, 1 + 1j, 0.5 - 0.5j])
         if real:
             vals = np.array([0.5, -0.5, 1, -1, 2, -2])
-        return vals[r.integers(0, len(vals), size=shape)].astype(np.float64 if real else np.complex128)
+        return _record(vals[r.integers(0, len(vals), size=shape)].astype(np.float64 if real else np.complex128))
     a = r.standard_normal(shape)
     if real:
-        return a
-    return a + 1j * r.standard_normal(shape)
+        return _record(a)
+    return _record(a + 1j * r.standard_normal(shape))
 
 
 def coords(family, grid, npts, seed, spec, centered=False):
@@ -68,7 +78,7 @@ def coords(family, grid, npts, seed, spec, centered=False):
     c = np.asarray(c, dtype=np.float64).reshape(npts, nd)
     if centered:
         c = c - np.array([n // 2 for n in grid], dtype=np.float64)
-    return c
+    return _record(c)
 
 
 def dec_idx(idx):
@@ -185,10 +195,10 @@ def build(spec, seed=0):
         weights = None
         if g("weights"):
             wshape = [spec["npts"]] if coord is not None else img
-            weights = np.abs(carray(wshape, seed, spec, "w", real=True)) + 0.1
+            weights = _record(np.abs(carray(wshape, seed, spec, "w", real=True)) + 0.1)
         tseg = None
         if g("tseg"):
-            b0 = carray(img, seed, spec, "b0", real=True) * 10
+            b0 = _record(carray(img, seed, spec, "b0", real=True) * 10)
             tseg = {"b0": b0, "dt": 1e-3, "lseg": g("tseg")["lseg"], "n_bins": g("tseg")["n_bins"]}
         return mr.linop.Sense(mps, coord=coord, weights=weights, tseg=tseg,
                               coil_batch_size=g("batch_size"))
@@ -201,7 +211,7 @@ def build(spec, seed=0):
         if g("weights"):
             grd_ = [i - m + 1 for i, m in zip(spec["iker"], spec["mker"])]
             wshape = [spec["nc"], spec["npts"]] if coord is not None else [spec["nc"]] + grd_
-            weights = np.abs(carray(wshape, seed, spec, "w", real=True)) + 0.1
+            weights = _record(np.abs(carray(wshape, seed, spec, "w", real=True)) + 0.1)
         return mr.linop.ConvSense(spec["iker"], ker, coord=coord, weights=weights, grd_shape=g("grd"))
     if op == "ConvImage":
         import sigpy.mri as mr
@@ -210,7 +220,7 @@ def build(spec, seed=0):
         if g("coord"):
             coord = coords(g("coord"), spec["grd"], spec["npts"], seed, spec, centered=True)
         if g("weights") and coord is not None:
-            weights = np.abs(carray([spec["nc"], spec["npts"]], seed, spec, "w", real=True)) + 0.1
+            weights = _record(np.abs(carray([spec["nc"], spec["npts"]], seed, spec, "w", real=True)) + 0.1)
         return mr.linop.ConvImage([spec["nc"]] + spec["mker"], ker, coord=coord, weights=weights,
                                   grd_shape=g("grd"))
     if op == "PtxSpatialExplicit":
@@ -218,7 +228,7 @@ def build(spec, seed=0):
         img = spec["img"]
         sens = carray([spec["nc"]] + img, seed, spec, "sens")
         coord = carray([spec["nt"], len(img)], seed, spec, "c", real=True)
-        b0 = carray(img, seed, spec, "b0", real=True) * 5 if g("b0") else None
+        b0 = _record(carray(img, seed, spec, "b0", real=True) * 5) if g("b0") else None
         return rl.PtxSpatialExplicit(sens, coord, 4e-6, img, b0=b0)
     # ---- combinators
     if op == "Conj":
